@@ -131,9 +131,14 @@ class CaseRunner:
             if chk.on_start:
                 chk.on_start(h, rep)
 
+            transcript = []
+
             def on_rec(hh, rec, twin):
                 if record:
                     rep.count("executions")
+                    if rec.mode == "step" and len(transcript) < 14:
+                        transcript.append(f"{rec.act} draw={'<' if rec.side == 'lo' else '>'}p({rec.act.prob}) -> "
+                                          f"{'success' if rec.info['success'] else 'fail'} gates={sorted(rec.pred.gates)}")
                 chk.on_rec(hh, rec, twin, rep)
 
             def on_reset(hh, obs, info):
@@ -158,8 +163,10 @@ class CaseRunner:
                 rep.count(f"depth:{min(ncomp, 5)}{'+' if ncomp >= 5 else ''}")
                 if h.spec.goal(h.mst):
                     rep.count("goal-reached-at-end")
-                if len(rep.samples) < rep.max_samples:
-                    rep.sample(describe_case(case, h))
+                if len(rep.samples) < rep.max_samples and rep.evaluations % 7 == 3:
+                    d = describe_case(case, h)
+                    d["transcript_first_steps"] = transcript
+                    rep.sample(d)
         except Failure as f:
             fail(f, nops[0])
         except Exception as e:
